@@ -43,7 +43,10 @@ func (eval Evaluator) Trace(ctIn *Ciphertext, logN int, opOut *Ciphertext) (err 
 
 	level := utils.Min(ctIn.Level(), opOut.Level())
 
-	opOut.Resize(opOut.Degree(), level)
+	opOut.Resize(ctIn.Degree(), level)
+
+	// ctIn and opOut may be the same object
+	isNTT := ctIn.IsNTT
 
 	*opOut.MetaData = *ctIn.MetaData
 
@@ -69,7 +72,7 @@ func (eval Evaluator) Trace(ctIn *Ciphertext, logN int, opOut *Ciphertext) (err 
 		ringQ.MulScalarBigint(ctIn.Value[0], NInv, opOut.Value[0])
 		ringQ.MulScalarBigint(ctIn.Value[1], NInv, opOut.Value[1])
 
-		if !ctIn.IsNTT {
+		if !isNTT {
 			ringQ.NTT(opOut.Value[0], opOut.Value[0])
 			ringQ.NTT(opOut.Value[1], opOut.Value[1])
 			opOut.IsNTT = true
@@ -105,7 +108,7 @@ func (eval Evaluator) Trace(ctIn *Ciphertext, logN int, opOut *Ciphertext) (err 
 			ringQ.Add(opOut.Value[1], buff.Value[1], opOut.Value[1])
 		}
 
-		if !ctIn.IsNTT {
+		if !isNTT {
 			ringQ.INTT(opOut.Value[0], opOut.Value[0])
 			ringQ.INTT(opOut.Value[1], opOut.Value[1])
 			opOut.IsNTT = false
@@ -168,7 +171,7 @@ func (eval Evaluator) PartialTracesSum(ctIn *Ciphertext, offset, n int, opOut *C
 
 	ringQ := ringQP.RingQ
 
-	opOut.Resize(opOut.Degree(), levelQ)
+	opOut.Resize(ctIn.Degree(), levelQ)
 	*opOut.MetaData = *ctIn.MetaData
 
 	ctInNTT, err := NewCiphertextAtLevelFromPoly(levelQ, eval.BuffCt.Value[:2])
@@ -325,7 +328,10 @@ func (eval Evaluator) InnerFunction(ctIn *Ciphertext, batchSize, n int, f func(a
 
 	ringQ := params.RingQ().AtLevel(levelQ)
 
-	opOut.Resize(opOut.Degree(), levelQ)
+	// ctIn and opOut may be the same object
+	metaDataIn := *ctIn.MetaData
+
+	opOut.Resize(ctIn.Degree(), levelQ)
 	*opOut.MetaData = *ctIn.MetaData
 
 	P0 := params.RingQ().NewPoly()
@@ -436,13 +442,13 @@ func (eval Evaluator) InnerFunction(ctIn *Ciphertext, batchSize, n int, f func(a
 		}
 	}
 
-	if !ctIn.IsNTT {
+	if !metaDataIn.IsNTT {
 		ringQ.INTT(opOut.Value[0], opOut.Value[0])
 		ringQ.INTT(opOut.Value[1], opOut.Value[1])
 	}
 
 	// The intermediate copies set the metadata of the NTT representation.
-	*opOut.MetaData = *ctIn.MetaData
+	*opOut.MetaData = metaDataIn
 
 	return
 }
